@@ -28,3 +28,29 @@ Theorem c02_wr_wf : forall E v, env_ok E = true ->
   wr E v fuel tag k x = Some bs -> wf_item bs.
 Proof. exact wr_wf. Qed.
 Print Assumptions c02_wr_wf.
+
+(* ---- the response envelope, for every batch, continuation option and version ---- *)
+From PK Require Import Codec.Envelope Codec.EnvelopeProofs.
+From PKGen Require Import KmipErrors.
+
+Theorem c02_envelope : forall version now continue items,
+  forallb (fun x => outcome_ok (snd x)) items = true ->
+  envelope_ok version (process version now continue items) = true.
+Proof. exact envelope. Qed.
+Print Assumptions c02_envelope.
+
+Theorem c02_envelope_err : forall version now reason msg,
+  envelope_ok version (build_error_response version now reason msg) = true.
+Proof. exact envelope_err. Qed.
+Print Assumptions c02_envelope_err.
+
+(* the hypothesis outcome_ok is met by the code: regenerated tables (tie T) *)
+Theorem c02_error_classes_fail : forallb class_ok kmip_error_classes = true.
+Proof. exact error_classes_fail. Qed.
+Theorem c02_raise_sites_nonempty : forallb site_ok kmip_raise_sites = true.
+Proof. exact raise_sites_nonempty. Qed.
+Print Assumptions c02_raise_sites_nonempty.
+
+Example c02_envelope_nonvacuous :
+  envelope_ok (1, 2) (process (1, 2) 5 false [(Some 1, None, OSuccess); (Some 10, None, OKmipError 1 1 "Could not locate object: 7")]) = true.
+Proof. vm_compute. reflexivity. Qed.
